@@ -1,5 +1,6 @@
 import Driver.Proto
 import XsdataModel.Ctx.Context
+import XsdataModel.Ctx.Memo
 open Lean Proto Py Xs.Ctx
 
 namespace OpsCtx
@@ -58,6 +59,16 @@ def opOf (j : Json) : Except String Op := do
   | "local_names_match" => pure (.localNamesMatch (← strList j "names") (← getNat j "c"))
   | "build_xsi_cache" => pure .buildXsiCache
   | "reset" => pure .reset
+  | "serialize" => do
+      let ts ← getArr j "toks"
+      let toks ← ts.mapM fun t => do
+        let parts ← asArr t
+        match parts with
+        | [.str "enter", i, c] => pure (Tok.enter (← i.getNat?) (← c.getNat?))
+        | [.str "leaf", i] => pure (Tok.leaf (← i.getNat?))
+        | [.str "leave"] => pure Tok.leave
+        | _ => .error "bad token"
+      pure (.serialize toks)
   | k => .error s!"bad op {k}"
 
 def worldOf (j : Json) : Except String World := do
@@ -80,6 +91,7 @@ def jOut : Out → Json
   | .gotType o => jObj [("type", jOpt jNat o)]
   | .gotBool b => jObj [("bool", jBool b)]
   | .done => jObj [("done", Json.null)]
+  | .gotNames l => jObj [("names", jList jStr l)]
   | .raised e => jObj [("err", Json.str (errStr e))]
 
 def jState (s : State) : Json :=
@@ -109,6 +121,58 @@ def run (op : String) (a : Json) : Option (Except String Json) :=
       let n ← getNat a "loaded"
       pure <| ok (jObj [("order", jList jNat (subclassOrder U n)),
                         ("index", jList (fun (k, l) => Json.arr #[jStr k, jList jNat l]) (pureIndex U n))])
+  | "memo.run" => some do
+      let nss ← strList a "nss"
+      let qs ← strList a "qs"
+      pure <| ok (jList jBool (matchRun nss none qs))
+  | "lru.run" => some do
+      let fn ← getStr a "fn"
+      let calls ← getArr a "calls"
+      match String.ofList fn with
+      | "build_qname" => do
+          let ks ← calls.mapM fun c => do
+            let xs ← asArr c
+            xs.mapM fun x => match x with
+              | .null => pure none
+              | .str s => pure (some s.toList)
+              | _ => .error "bad arg"
+          let rs := lruRun buildQNameArgs Tables.lruMaxBuildQName [] ks
+          pure <| ok (jList (fun (r, hit) => Json.arr #[(match r with
+            | some q => jStr q
+            | none => err "ValueError"), jBool hit]) rs)
+      | "split_qname" => do
+          let ks ← calls.mapM fun c => do
+            let xs ← asArr c
+            match xs with
+            | [.str s] => pure s.toList
+            | _ => .error "bad arg"
+          let rs := lruRun splitQNameArgs Tables.lruMaxSplitQName [] ks
+          pure <| ok (jList (fun (r, hit) => Json.arr #[(match r with
+            | some (u, l) => Json.arr #[jOpt jStr u, jStr l]
+            | none => err "IndexError"), jBool hit]) rs)
+      | f => .error s!"bad fn {f}"
+  | "rec.run" => some do
+      let calls ← getArr a "calls"
+      let nsmap (j : Json) : Except String NsMap := do
+        let xs ← asArr j
+        xs.mapM fun e => do
+          match ← asArr e with
+          | [.null, .str u] => pure (none, u.toList)
+          | [.str p, .str u] => pure (some p.toList, u.toList)
+          | _ => .error "bad ns entry"
+      let jmap (m : NsMap) : Json := jList (fun (p, u) => Json.arr #[jOpt jStr p, jStr u]) m
+      let cs ← calls.mapM fun c => do
+        let d ← nsmap (c.getObjValD "decls")
+        let arg ← match c.getObjValD "arg" with
+          | .null => pure none
+          | j => (nsmap j).map some
+        pure (d, arg)
+      let rec go (p : ParserInst) : List (NsMap × Option NsMap) → List Json
+        | [] => []
+        | (d, arg) :: rest =>
+          let (p', _, m) := parseCall (Doc := NsMap) (R := Unit) id (fun _ => ()) p d arg
+          jObj [("inst", jmap p'.nsMap), ("arg", jOpt jmap m)] :: go p' rest
+      pure <| ok (Json.arr (go ⟨[]⟩ cs).toArray)
   | _ => none
 
 end OpsCtx
